@@ -40,13 +40,43 @@ func (consumersSuite) Gen(r *rand.Rand, i int) Case {
 	pdur := int64(pn) * width * 2
 	slo := []int64{1, 5, 50}[r.Intn(3)] * unit
 	to := []int64{0, 5, 50}[r.Intn(3)] * unit
-	c := Case{Header: fmt.Sprintf("consumers n=%d dur=%d pn=%d pdur=%d psize=%d slo=%d to=%d mc=%d fbmc=%d", n, dur, pn, pdur, 1+r.Intn(4), slo, to,
-		[]int64{-1, 0, 10, 10}[r.Intn(4)], []int64{-1, 0, 10, 10}[r.Intn(4)])}
+	psize := 1 + r.Intn(4)
+	hn, hdur, hpn, hpdur, hpsize := n, dur, pn, pdur, psize
+	var dtags []string
+	if r.Intn(8) == 0 {
+		// the statistics' windows LEFT UNSET (0): the documented defaults apply — 10 buckets over 10 s for the counters,
+		// 6 buckets of 100 samples over 60 s for the latencies
+		dtags = append(dtags, "defaults")
+		if u := r.Intn(3); u != 1 {
+			hn, hdur = 0, 0
+			n, width, dur = 10, 1_000_000_000, 10_000_000_000
+		}
+		if u := r.Intn(3); u != 1 {
+			hpn, hpdur, hpsize = 0, 0, 0
+			pn, pdur, psize = 6, 60_000_000_000, 100
+		}
+	}
+	_ = psize
+	c := Case{Header: fmt.Sprintf("consumers n=%d dur=%d pn=%d pdur=%d psize=%d slo=%d to=%d mc=%d fbmc=%d", hn, hdur, hpn, hpdur, hpsize, slo, to,
+		[]int64{-1, 0, 10, 10}[r.Intn(4)], []int64{-1, 0, 10, 10}[r.Intn(4)]), Tags: dtags}
 	if r.Intn(8) == 0 {
 		c.Header += " coll=run" // the circuit carries rolling.RunStats but no rolling.FallbackStats (collectors set by hand)
 		c.Tags = append(c.Tags, "run-stats-only")
 	}
 	id := 1
+	if len(dtags) > 0 && hpn == 0 {
+		// directed prelude for the unset latency window (6 buckets of 100 samples over 60 s): one slow call stamped 11 s
+		// in — the second 10 s bucket — must still be in the sample 54 s later (it leaves with ITS bucket, at 70 s), and a
+		// burst of 101 calls inside one bucket keeps exactly the latest 100
+		c.Ops = append(c.Ops, "tick 11000000000", fmt.Sprintf("exec ctx=bg run=nil radv=%d rcancel=0 fb=none fadv=1 fcancel=0 ans=0000", 9*unit),
+			"tick 54000000000", "stats", "tick 4000000000", "stats", "tick 1000000000", "stats")
+		if r.Intn(2) == 0 {
+			for k := 0; k < 101; k++ {
+				c.Ops = append(c.Ops, fmt.Sprintf("exec ctx=bg run=nil radv=%d rcancel=0 fb=none fadv=1 fcancel=0 ans=0000", int64(k%7)*unit))
+			}
+			c.Ops = append(c.Ops, "stats")
+		}
+	}
 	mLong := 3 + r.Intn(30)
 	if r.Intn(25) == 0 {
 		mLong = 150 + r.Intn(250) // a long history
@@ -75,7 +105,7 @@ func (consumersSuite) Gen(r *rand.Rand, i int) Case {
 			c.Ops = append(c.Ops, fmt.Sprintf("setcfg mc=%d partial=%d", []int64{-1, 0, 10}[r.Intn(3)], r.Intn(2)), "var")
 			c.Tags = append(c.Tags, "reconfig")
 		case x < 76:
-			c.Ops = append(c.Ops, fmt.Sprintf("tick %d", []int64{1, width - 1, width, dur - 1, dur, 3 * dur}[r.Intn(6)]))
+			c.Ops = append(c.Ops, fmt.Sprintf("tick %d", []int64{1, width - 1, width, dur - 1, dur, 3 * dur, pdur / int64(pn), pdur - pdur/int64(pn), pdur - 1, pdur}[r.Intn(10)]))
 			c.Tags = append(c.Tags, "tick")
 		case x < 78:
 			// the substitute clock is set BACK (around one window): late-stamped events
